@@ -5,13 +5,13 @@
 
      reset {n, cell, label, body, defs, wrapped, wdefs}
         n        iterations requested
-        cell     index of the counter reference handed to wrap_in_loop (its region is fresh)
+        cell     index of the counter reference handed to wrap_in_loop (0, 1 or 2; its region is fresh)
         label    name of the start target handed in
         body     the original body, exported as abstract instructions (all Op(text))
         defs     the original program's definitions, in listing order: [key, text, sec]
         wrapped  the body of the returned program, exported as abstract instructions (LoopExec.tla)
         wdefs    the returned program's definitions
-        decl     the declaration [key, text, sec] of the counter region that wrap_in_loop is expected to add
+        decl     the declaration [key, text, sec] of the counter region that wrap_in_loop is expected to add (INTEGER[cell + 1])
 
    Unlike the other trace specifications this one does not walk the records in sequence: a record is a
    complete input of the interpreter, so each record is an *initial state* (l - 1 is its index, so that a
